@@ -160,7 +160,7 @@ func runC10(c *Ctx) {
 		okStick := false
 		if rsf := p.SSAFunc(rec.Obj); rsf != nil {
 			stores, guarded := 0, 0
-			for _, f := range reachSSA(rsf, 2) {
+			for _, f := range reachSSAWithValues(rsf, 2) {
 				if f.Pkg == nil || f.Pkg.Pkg != pk.Types {
 					continue
 				}
@@ -335,6 +335,35 @@ func runC10(c *Ctx) {
 			return name
 		}
 		var order []string
+		nGuardedElem := 0
+		// guardedElementReturn: call is x.IsLocal() / x.IsTarget() and some return on its true edge hands back x
+		guardedElementReturn := func(call ssaCall) string {
+			name := ""
+			if o := staticCalleeObj(call.Call); o != nil {
+				name = o.Name()
+			} else if call.Call.IsInvoke() {
+				name = call.Call.Method.Name()
+			}
+			if (name != "IsLocal" && name != "IsTarget") || call.Value == nil {
+				return ""
+			}
+			var recv ssa.Value = call.Call.Value
+			if !call.Call.IsInvoke() && len(call.Call.Args) > 0 {
+				recv = call.Call.Args[0]
+			}
+			for _, r := range returnsOf(call.Instr.Parent()) {
+				if len(r.Results) != 2 || stripConv(r.Results[0]) != stripConv(recv) {
+					continue
+				}
+				for _, ge := range guardingEdges(r.Block()) {
+					cv, pos := condPolarity(ge.If.Cond)
+					if cv == call.Value && ge.Branch == pos {
+						return name
+					}
+				}
+			}
+			return ""
+		}
 		var stages []*ssa.Function
 		seenFn := map[*ssa.Function]bool{}
 		var visit func(f *ssa.Function)
@@ -347,6 +376,11 @@ func runC10(c *Ctx) {
 			for _, call := range callsIn(f) {
 				if pn := predOf(call.Call); pn != "" {
 					order = append(order, pn)
+				}
+				// the same narrowing written as a loop: `for _, m := range ms { if m.IsLocal() { return m, nil } }`
+				if pn := guardedElementReturn(call); pn != "" {
+					order = append(order, pn)
+					nGuardedElem++
 				}
 				if call.Call.IsInvoke() && call.Call.Method != nil && call.Call.Method.Name() == "GetCommitsForModuleKeys" {
 					order = append(order, "GetCommitsForModuleKeys")
@@ -398,7 +432,7 @@ func runC10(c *Ctx) {
 				}
 			}
 		}
-		c.Ob("PREFERENCE-CHAIN", "selection/returns-filtered-element", entry.Decl.Pos(), okElem && nIdx >= 2, true, "%d returns hand back an indexed element, each of a list narrowed by IsTarget or IsLocal: %v", nIdx, okElem)
+		c.Ob("PREFERENCE-CHAIN", "selection/returns-filtered-element", entry.Decl.Pos(), okElem && nIdx+nGuardedElem >= 2, true, "%d returns hand back an indexed element (and %d an element tested by the predicate itself), each of a list narrowed by IsTarget or IsLocal: %v", nIdx, nGuardedElem, okElem)
 		// the registry's commit times are consulted only after both narrowings
 		firstCommits, lastPred := -1, -1
 		for i, o := range order {
